@@ -16,6 +16,12 @@ indication callback raising), on two persistent receive threads and nested (a re
 thread sits in its indication callback).  The model side is the wire-level model `RouterSec.lean` (`wcfg / wrx / wfire`);
 every forwarded frame - immediate or from the CBF buffer - is byte-compared with the frame that caused it, secured ones
 octet for octet behind the RHL.
+
+Round 5: every CBF timer expiry runs on a dedicated timer thread of the station; nothing is read out of the Timer objects
+except a finished PDU when they hold one; exceptions raised by the real code are logged and judged.  Two-thread scenarios
+(`gen_conc / ConcRun / check_conc`): two link-layer receive threads on one real router under harness/dsched.py, schedules
+enumerated at lock-section granularity (<= 1 pre-emption) + PCT, counting oracle; the lock shape of
+`LocationTable.refresh_table` (Generated/Locks.lean) is an obligation of Props.C06 (`refresh_table_is_one_section`).
 """
 from __future__ import annotations
 
@@ -55,9 +61,13 @@ TRUSTED = [
     "threading.Timer is replaced by a virtual timer fired by the harness (arbitrary expiry points)",
     "wire level: SN-VERIFY is an opaque input of the model (outcome recorded from the real VerifyService of the station; "
     "the verify path itself is the subject of C09-C12); a secured message is an opaque identity (its octets are "
-    "byte-compared by the oracle); the receive context is modelled per receive thread, receptions of different threads are "
-    "serialised by the harness (one inside the other's indication callback at most) - no preemptive interleaving of two "
-    "handlers",
+    "byte-compared by the oracle); the receive context is modelled per receive thread; in the wire-level histories receptions of "
+    "different threads are serialised by the harness (one inside the other's indication callback at most)",
+    "two receive threads: real threads under the deterministic scheduler harness/dsched.py (scheduler-aware Lock/RLock in "
+    "router.py and location_table.py, pre-emption at lock boundaries, lines and shared-state bytecodes); schedules with at "
+    "most one pre-emption are enumerated (capped), others sampled (PCT); unsecured stations, frozen clock",
+    "regenerated lock shape of LocationTable.refresh_table (harness/gen_locks.py -> Generated/Locks.lean): one loc_t_lock "
+    "section",
     "regenerated structural facts (harness/gen_router.py -> Generated/RouterRx.lean): the receive context is a "
     "threading.local written by process_security_header only, reset in a finally around the dispatch, read by "
     "_forward_pdu only, which only forwarders call",
@@ -1607,9 +1617,11 @@ class ConcRun:
                                 f"stands still and every position vector is fresh)")
 
 
-def check_conc(ctx, case, clock, cap, pct=2):
+def check_conc(ctx, case, clock, cap, pct=2, fine_cap=0):
     """coarse schedules (a thread is switched where it takes / releases a lock, starts or ends) with at most one
-    pre-emption in breadth-first order, then a few PCT schedules at full granularity"""
+    pre-emption in breadth-first order, then a few PCT schedules at full granularity; `fine_cap` (failing-input search):
+    that many schedules with one pre-emption at ANY point (every line of router.py / location_table.py, every shared-state
+    bytecode of the location table) in random order - for races that involve no lock boundary at all"""
     import dsched
     found = []
 
@@ -1631,6 +1643,8 @@ def check_conc(ctx, case, clock, cap, pct=2):
             return []
         return handle(ConcRun(case, dsched.Replay(prefix), clock)).steps
     dsched.enumerate_schedules(once, 1, cap, ctx.rng, kinds=dsched.COARSE_KINDS, order="bfs")
+    if fine_cap and not found:
+        dsched.enumerate_schedules(once, 1, fine_cap, ctx.rng)
     est = 400
     for i in range(pct):
         if found:
@@ -1665,8 +1679,9 @@ def run(ctx):
                          "harness-fired timers, beacons/SHB for neighbour state, clock steps up to 3 lifetimes; stations with / "
                          "without a verify service and itsGnSecurity on/off, frames received unsecured or secured with 5 kinds "
                          "of envelope, dispatch aborted after verification, two receive threads, nested receptions) and floods "
-                         "(secured ones too) on line/ring/mesh topologies of 3-5 real routers; distinct_nontrivial counts "
-                         "distinct histories/topologies")
+                         "(secured ones too) on line/ring/mesh topologies of 3-5 real routers; two receive threads on one router "
+                         "under dsched (schedules with <= 1 pre-emption at lock-section granularity + PCT); "
+                         "distinct_nontrivial counts distinct histories/topologies/two-thread cases")
     with Patched() as clock:
         wit = next((k.get("witness") for k in ctx.known if k["id"] == "C06-KF1"), None)
         if wit:
@@ -1728,7 +1743,7 @@ def search(ctx):
             for _ in range(ctx.scale(15, 300)):
                 if ctx.violations:
                     break
-                check_conc(ctx, gen_conc(ctx.rng), clock, cap=ctx.scale(90, 400), pct=ctx.scale(6, 20))
+                check_conc(ctx, gen_conc(ctx.rng), clock, cap=ctx.scale(90, 400), pct=ctx.scale(6, 20), fine_cap=ctx.scale(100, 800))
             for _ in range(ctx.scale(120, 3000)):
                 if ctx.violations:
                     break
